@@ -222,3 +222,37 @@ Proof. constructor; simpl; try discriminate; try tauto; auto; try (intros [C|[C|
  Qed.
 Print Assumptions stop_returns.
 Print Assumptions stop_after_run_refuted.
+
+(* ------------------------------------------------------------------------------------------------ *)
+(* The order of shared-variable accesses in AsyncGraph.stop and _Synchronizer._async_step as data: the kernel
+   translator regenerates these lists from the source on every run (coq/Generated/Lifecycle.v) and
+   coq/Ties/LifecycleTie.v proves that the source follows the repaired protocol (fixed = true).       *)
+Inductive stop_op := OpFlip | OpMustReset | OpLenCancel | OpSafeCancel | OpWait | OpToggle.
+Inductive sup_op := SupAppend | SupPublish | SupCheck | SupWait | SupPopleft | SupSetMustReset | SupSkipped.
+
+(* which transition system a stop() body corresponds to *)
+Definition stop_op_eqb (a b : stop_op) : bool :=
+  match a, b with OpFlip, OpFlip | OpMustReset, OpMustReset | OpLenCancel, OpLenCancel | OpSafeCancel, OpSafeCancel
+  | OpWait, OpWait | OpToggle, OpToggle => true | _, _ => false end.
+Fixpoint ops_eqb (a b : list stop_op) : bool :=
+  match a, b with [] , [] => true | x :: a, y :: b => stop_op_eqb x y && ops_eqb a b | _, _ => false end.
+Definition protocol_mode (ops : list stop_op) : option bool :=
+  if ops_eqb ops [OpFlip; OpMustReset; OpSafeCancel; OpWait; OpToggle] then Some true
+  else if ops_eqb ops [OpFlip; OpLenCancel; OpWait; OpToggle] then Some false else None.
+Definition sup_protocol : list sup_op := [SupAppend; SupPublish; SupCheck; SupWait; SupPopleft; SupSetMustReset; SupSkipped].
+
+(* ------------------------------------------------------------------------------------------------ *)
+(* Episode isolation at a connection: push_input / push_ts_input drop every message whose header episode differs from
+   the receiver's current episode; a fresh episode starts from empty channels.                            *)
+Section Episode.
+Context {M : Type}.
+Definition accept (eps_recv : nat) (m : nat * M) : bool := Nat.eqb (fst m) eps_recv.
+Definition received (eps_recv : nat) (arrivals : list (nat * M)) : list (nat * M) := filter (accept eps_recv) arrivals.
+Theorem stale_dropped eps arrivals m : In m (received eps arrivals) -> fst m = eps.
+Proof. unfold received. intros H. apply filter_In in H as [_ H]. apply Nat.eqb_eq. exact H. Qed.
+Theorem current_kept_in_order eps arrivals :
+  received eps arrivals = filter (fun m => Nat.eqb (fst m) eps) arrivals.
+Proof. reflexivity. Qed.
+Theorem none_lost eps arrivals m : In m arrivals -> fst m = eps -> In m (received eps arrivals).
+Proof. intros H E. apply filter_In. split; [exact H|]. unfold accept. rewrite E. apply Nat.eqb_refl. Qed.
+End Episode.
